@@ -57,6 +57,7 @@ class FrameLedger:
         self.opened_after_goaway: list[int] = []
         self.cont_expect = None
         self.mcs_acked = None
+        self.refused: set[int] = set()
         self.first_settings: dict = {}
 
     def viol(self, kind: str, **kw) -> None:
@@ -130,7 +131,7 @@ class FrameLedger:
             self.viol("frame-too-large", type=ftype, length=length, allowed=self.max_frame_allowed)
         if ftype == 0x0:  # DATA
             st = self.open.get(sid)
-            if st is None or st["c_end"]:
+            if (st is None or st["c_end"]) and sid not in self.refused:
                 self.viol("data-on-closed-stream", stream=sid)
             self.conn_window -= length
             self.min_conn_window = min(self.min_conn_window, self.conn_window)
@@ -300,6 +301,10 @@ class H2Server:
             tok = req.header(b"x-token")
             req.token = tok[0] if tok else None
             self.reqs[ev.stream_id] = req
+            if self.goaway_last is not None and ev.stream_id > self.goaway_last:
+                req.dropped = True
+                req.refused_by_goaway = True
+                self.ledger.refused.add(ev.stream_id)
             o.requests.append(req)
             o.net.log("req.head", origin=o.name, tr=self.tr.id, token=req.token, ordinal=req.ordinal,
                       layer=req.layer, method=req.method, target=req.target, stream=ev.stream_id)
@@ -432,8 +437,13 @@ class H2Server:
                 self.closed = True
 
     def goaway(self, last: int, code: int = 0) -> None:
-        self.conn.close_connection(error_code=code, last_stream_id=last)
+        """Graceful GOAWAY: the frame is written raw (hyperframe) so that the h2 server role keeps serving the
+        streams at or below last-stream-id, as a real server does. A server never names a last-stream-id below
+        a stream it has already started to answer."""
+        from hyperframe.frame import GoAwayFrame
+        last = max([last] + [sid for sid, r in self.reqs.items() if getattr(r, "answered", False)])
         self._flush()
+        self.tr.send(GoAwayFrame(stream_id=0, last_stream_id=last, error_code=code).serialize())
         self.goaway_end = self.tr.produced
         self.goaway_last = last
         self.origin.net.log("h2.goaway", tr=self.tr.id, last=last)
@@ -442,7 +452,7 @@ class H2Server:
                 r.dropped = True
                 r.refused_by_goaway = True
                 self.pending_out.pop(sid, None)
-                self.ledger.server_reset(sid)
+                self.ledger.refused.add(sid)
         self.held = [(r, p) for r, p in self.held if r.stream_id <= last]
 
     # responses ------------------------------------------------------------------------
@@ -478,6 +488,7 @@ class H2Server:
             hs.append((b"content-length", b"%d" % len(resp.body)))
         resp.sent_headers = hs
         o.record(req, resp)
+        req.answered = True
         body = b"" if resp.no_body else resp.body
         try:
             self.conn.send_headers(sid, [(b":status", b"%d" % resp.status)] + hs, end_stream=not body and not resp.trailers)
